@@ -250,3 +250,18 @@ pub fn display_default_u16() {
     let diff = if lhs >= rhs { lhs - rhs } else { rhs - lhs };
     assert!(diff < p as u128 || (diff == p as u128 && abs % 2 == 0));
 }
+
+// 32-bit values (BOUNDED: u32 patterns, all 33 layouts symbolic): u32 delegates to the u16 helper and that to the u8 helper
+#[cfg(kani)]
+#[kani::proof]
+#[kani::unwind(40)]
+#[kani::stub(core::str::from_utf8, fake_from_utf8)]
+pub fn display_lower_hex_u32() {
+    let abs: u32 = kani::any();
+    let f: u32 = kani::any();
+    kani::assume(f <= 32);
+    let mut s = Sink::new();
+    assert!(write!(s, "{:x}", FmtRadix2(false, abs, f)).is_ok());
+    let (val, fd, ok) = read_radix(&s, 0, 16);
+    assert!(ok && fd <= 8 && ((val as u128) << f) == (abs as u128) << (4 * fd as u32));
+}
